@@ -3,23 +3,22 @@
    evaluator model coq/Sem.v (every value a heap cell), on a fragment:
 
      expressions  number / bool / ASCII string literals, variables, groups, unary - and !,
-                  binary + - * / < <= > >= on numbers, + and the comparisons on strings,
-                  == and != on numbers, bools and strings;
+                  binary + - * / % < <= > >= on numbers, + and the comparisons on strings,
+                  array literals, a[i] on arrays and strings, + on arrays,
+                  == and != when one operand is manifestly scalar (scalar_valued);
      statements   declarations, assignments to variables, if / else if / else, while, break,
                   the empty statement — declarations anywhere (block scopes).
 
    Whenever lx_l is defined, the Sem run of the corresponding Ast program ends normally and
    every variable of lx_l's final environment is a global of the Sem state whose cell HOLDS
-   that value.  Missing (hence _partial): arrays, maps, indexing, slicing, % and the for
-   loops (see the end of the file for what stands in the way). *)
+   that value.  Missing (hence _partial): maps, slices, array repetition, == on two
+   composites, non-ASCII strings and the for loops (see the end of the file). *)
 From Coq Require Import ZArith NArith PArith List String Bool Floats FMapPositive Lia.
 From EvyV Require Import Base Num Ast Omap Sem SemOrder SemStoreBase SemFresh SemEvents SemIso.
 From EvyV Require Vm Compile CompileSem.
 Import ListNotations.
 Local Open Scope positive_scope.
 
-Module C := Compile.
-Module CS := CompileSem.
 
 (* ====================================================================== *)
 (* 1. The two syntaxes                                                     *)
@@ -27,38 +26,78 @@ Module CS := CompileSem.
 (* Compile.v's AST carries what compiler.go inspects; Ast.v's is the typed tree the evaluator
    walks.  [xrel e x]: x is e with arbitrary type annotations (Sem.v never looks at them in
    this fragment). *)
-Definition trop (op : C.binop) : option binop :=
+Definition trop (op : Compile.binop) : option binop :=
   match op with
-  | C.BPlus => Some BPlus | C.BMinus => Some BMinus | C.BStar => Some BAsterisk | C.BSlash => Some BSlash
-  | C.BLt => Some BLt | C.BLe => Some BLtEq | C.BGt => Some BGt | C.BGe => Some BGtEq
-  | C.BEq => Some BEq | C.BNe => Some BNotEq
+  | Compile.BPlus => Some BPlus | Compile.BMinus => Some BMinus | Compile.BStar => Some BAsterisk | Compile.BSlash => Some BSlash
+  | Compile.BPercent => Some BPercent
+  | Compile.BLt => Some BLt | Compile.BLe => Some BLtEq | Compile.BGt => Some BGt | Compile.BGe => Some BGtEq
+  | Compile.BEq => Some BEq | Compile.BNe => Some BNotEq
   | _ => None
   end.
 
-Inductive xrel : C.expr -> expr -> Prop :=
-| x_num f : xrel (C.ENum f) (ENum f)
-| x_bool b : xrel (C.EBool b) (EBool b)
-| x_str s : xrel (C.EStr s) (EStr s)
-| x_var n t : xrel (C.EVar n) (EVar n t)
-| x_group e x : xrel e x -> xrel (C.EGroup e) (EGroup x)
-| x_neg e x : xrel e x -> xrel (C.EUn C.UMinus e) (EUn UMinus x)
-| x_not e x : xrel e x -> xrel (C.EUn C.UBang e) (EUn UBang x)
+Inductive xrel : Compile.expr -> expr -> Prop :=
+| x_num f : xrel (Compile.ENum f) (ENum f)
+| x_bool b : xrel (Compile.EBool b) (EBool b)
+| x_str s : xrel (Compile.EStr s) (EStr s)
+| x_var n t : xrel (Compile.EVar n) (EVar n t)
+| x_group e x : xrel e x -> xrel (Compile.EGroup e) (EGroup x)
+| x_neg e x : xrel e x -> xrel (Compile.EUn Compile.UMinus e) (EUn UMinus x)
+| x_not e x : xrel e x -> xrel (Compile.EUn Compile.UBang e) (EUn UBang x)
 | x_bin op op' lt rt t l r xl xr : trop op = Some op' -> xrel l xl -> xrel r xr ->
-    xrel (C.EBin op lt rt l r) (EBin op' t xl xr).
+    xrel (Compile.EBin op lt rt l r) (EBin op' t xl xr)
+| x_arr l xl t : xlrel l xl -> xrel (Compile.EArr l) (EArr t xl)
+| x_index l i xl xi t : xrel l xl -> xrel i xi -> xrel (Compile.EIndex l i) (EIndex t xl xi)
+with xlrel : Compile.elist -> list expr -> Prop :=
+| xl_nil : xlrel Compile.ENil []
+| xl_cons e t x xt : xrel e x -> xlrel t xt -> xlrel (Compile.ECons e t) (x :: xt).
+
+Scheme xrel_mind := Minimality for xrel Sort Prop
+  with xlrel_mind := Minimality for xlrel Sort Prop.
+Combined Scheme xrel_xlrel_ind from xrel_mind, xlrel_mind.
+
+(* an expression whose value, when defined, is a number, a string or a bool whatever the
+   variables hold: == and != are in the fragment when one operand is of this form (then a
+   defined comparison has two scalar operands: value.Equals is undefined on mixed kinds) *)
+Fixpoint scalar_valued (e : Compile.expr) : bool :=
+  match e with
+  | Compile.ENum _ | Compile.EBool _ | Compile.EStr _ => true
+  | Compile.EGroup e1 => scalar_valued e1
+  | Compile.EUn Compile.UMinus _ | Compile.EUn Compile.UBang _ => true
+  | Compile.EBin op lt _ _ _ =>
+      match op with
+      | Compile.BPlus | Compile.BStar => match lt with Compile.TNum | Compile.TStr => true | _ => false end
+      | _ => true
+      end
+  | _ => false
+  end.
 
 Definition name_ok (n : str) : bool := negb (str_eqb n underscore).
 
 (* the expression fragment of the tie *)
-Fixpoint tfrag_e (e : C.expr) : bool :=
+Fixpoint tfrag_e (e : Compile.expr) : bool :=
   match e with
-  | C.ENum _ | C.EBool _ => true
-  | C.EStr s => is_ascii s
-  | C.EVar n => name_ok n
-  | C.EGroup e1 => tfrag_e e1
-  | C.EUn C.UMinus e1 | C.EUn C.UBang e1 => tfrag_e e1
-  | C.EBin op _ _ l r => match trop op with Some _ => tfrag_e l && tfrag_e r | None => false end
+  | Compile.ENum _ | Compile.EBool _ => true
+  | Compile.EStr s => is_ascii s
+  | Compile.EVar n => name_ok n
+  | Compile.EGroup e1 => tfrag_e e1
+  | Compile.EUn Compile.UMinus e1 | Compile.EUn Compile.UBang e1 => tfrag_e e1
+  | Compile.EBin op lt rt l r =>
+      match trop op with
+      | Some _ =>
+          tfrag_e l && tfrag_e r &&
+          match op with
+          | Compile.BEq | Compile.BNe => scalar_valued l || scalar_valued r
+          | Compile.BStar => match lt with Compile.TArr => false | _ => true end   (* no repetition (deepCopy) *)
+          | _ => true
+          end
+      | None => false
+      end
+  | Compile.EArr l => tfrag_el l
+  | Compile.EIndex l i => tfrag_e l && tfrag_e i
   | _ => false
-  end.
+  end
+with tfrag_el (l : Compile.elist) : bool :=
+  match l with Compile.ENil => true | Compile.ECons e t => tfrag_e e && tfrag_el t end.
 
 (* ====================================================================== *)
 (* 2. Values against cells, environments against scopes                    *)
@@ -68,16 +107,26 @@ Fixpoint tfrag_e (e : C.expr) : bool :=
 Inductive holds (h : heap) : loc -> Vm.value -> Prop :=
 | h_num l f : hget h l = Some (HNum f) -> holds h l (Vm.VNum f)
 | h_bool l b : hget h l = Some (HBool b) -> holds h l (Vm.VBool b)
-| h_str l x : hget h l = Some (HStr x) -> is_ascii x = true -> holds h l (Vm.VStr x).
+| h_str l x : hget h l = Some (HStr x) -> is_ascii x = true -> holds h l (Vm.VStr x)
+| h_arr l ls vs : hget h l = Some (HArr ls) -> Forall2 (holds h) ls vs -> holds h l (Vm.VArr vs).
 
-Lemma holds_ext h h' l v : heap_extends h h' -> holds h l v -> holds h' l v.
-Proof. intros [_ E] H. destruct H; [apply h_num | apply h_bool | apply h_str]; auto. Qed.
+Lemma holds_ext h h' : heap_extends h h' -> forall l v, holds h l v -> holds h' l v.
+Proof.
+  intros [_ E]. fix IH 3. intros l v H. destruct H as [l f G|l b G|l x G A|l ls vs G F].
+  - apply h_num; auto.
+  - apply h_bool; auto.
+  - apply h_str; auto.
+  - apply (h_arr h' l ls vs); [apply E; exact G|].
+    clear G. revert ls vs F. fix IHF 3. intros ls vs F. destruct F; constructor; [apply IH; assumption | apply IHF; assumption].
+Qed.
 
-Lemma holds_fun h l v v' : holds h l v -> holds h l v' -> v = v'.
-Proof. intros H H'. destruct H; inversion H'; subst; congruence. Qed.
-
-Lemma holds_basic h l v : holds h l v -> exists x, hget h l = Some x /\ is_basic x = true.
+(* a held cell is a basic cell or an array cell *)
+Lemma holds_cell h l v : holds h l v ->
+  exists x, hget h l = Some x /\ (is_basic x = true \/ is_composite x = true).
 Proof. intro H. destruct H; eauto. Qed.
+
+Definition scalar (v : Vm.value) : Prop :=
+  match v with Vm.VNum _ | Vm.VBool _ | Vm.VStr _ => True | _ => False end.
 
 Lemma utf8_ascii s : is_ascii s = true -> Vm.utf8_encode s = s.
 Proof.
@@ -89,17 +138,17 @@ Lemma is_ascii_app a b : is_ascii a = true -> is_ascii b = true -> is_ascii (a +
 Proof. unfold is_ascii. intros. rewrite forallb_app. apply andb_true_iff; auto. Qed.
 
 (* a frame of lx_l against a frame of Sem: the same names, related values *)
-Definition frel_in (h : heap) (lf : CS.frame) (sf : frame) : Prop :=
+Definition frel_in (h : heap) (lf : CompileSem.frame) (sf : frame) : Prop :=
   forall n, match frame_get n sf with
-            | Some l => exists v, CS.alook n lf = Some v /\ holds h l v
-            | None => CS.alook n lf = None
+            | Some l => exists v, CompileSem.alook n lf = Some v /\ holds h l v
+            | None => CompileSem.alook n lf = None
             end.
 (* the global frame of lx_l against the globals of Sem (which also hold err, errmsg, pi) *)
-Definition frel_gl (h : heap) (gf : CS.frame) (g : frame) : Prop :=
-  forall n v, CS.alook n gf = Some v -> exists l, frame_get n g = Some l /\ holds h l v.
+Definition frel_gl (h : heap) (gf : CompileSem.frame) (g : frame) : Prop :=
+  forall n v, CompileSem.alook n gf = Some v -> exists l, frame_get n g = Some l /\ holds h l v.
 
 (* lenv = inner frames ++ [globals] against (env, st_globals) *)
-Definition envrel (lenv : CS.senv) (E : env) (s : state) : Prop :=
+Definition envrel (lenv : CompileSem.senv) (E : env) (s : state) : Prop :=
   exists lfs gf, lenv = lfs ++ [gf] /\
                  Forall2 (frel_in (st_heap s)) lfs E /\ frel_gl (st_heap s) gf (st_globals s).
 
@@ -122,13 +171,13 @@ Qed.
 
 (* lookups agree *)
 Lemma lookup_tie lenv E s n v :
-  envrel lenv E s -> name_ok n = true -> CS.slook n lenv = Some v ->
+  envrel lenv E s -> name_ok n = true -> CompileSem.slook n lenv = Some v ->
   exists l, lookup n E s = (Ok (Some l), s) /\ holds (st_heap s) l v.
 Proof.
   intros (lfs & gf & -> & F & FG) N H. unfold lookup. unfold name_ok in N.
   apply negb_true_iff in N. rewrite N.
   induction F as [|lf sf lt st Hf F IH]; simpl in *.
-  - destruct (CS.alook n gf) as [w|] eqn:A; [|discriminate]. inversion H; subst w.
+  - destruct (CompileSem.alook n gf) as [w|] eqn:A; [|discriminate]. inversion H; subst w.
     destruct (FG n v A) as (l & G & Hl). exists l. rewrite G. auto.
   - specialize (Hf n). destruct (frame_get n sf) as [l|].
     + destruct Hf as (w & A & Hl). rewrite A in H. inversion H; subst w. exists l. auto.
@@ -235,47 +284,197 @@ Proof. intro H. unfold bindM, load_str, bindM, load. rewrite H. reflexivity. Qed
 Lemma run_load_bool {A} (k : bool -> M A) s l f : hget (st_heap s) l = Some (HBool f) -> bindM (load_bool l) k s = k f s.
 Proof. intro H. unfold bindM, load_bool, bindM, load. rewrite H. reflexivity. Qed.
 
-(* value.Equals on two cells that hold plain values *)
-Lemma equals_tie d s la lb a b t :
-  holds (st_heap s) la a -> holds (st_heap s) lb b -> Vm.val_equals a b = Some t ->
-  equals (S d) la lb s = (Ok t, s).
+(* math.Mod: the VM model's and the evaluator model's definitions agree *)
+Lemma is_nan_spec x : is_nan x = match Prim2SF x with SpecFloat.S754_nan => true | _ => false end.
 Proof.
-  intros Ha Hb Hv. simpl.
-  destruct Ha as [la x Ga|la x Ga|la x Ga Aa], Hb as [lb y Gb|lb y Gb|lb y Gb Ab]; simpl in Hv; try discriminate;
-    rewrite (run_load _ s la _ Ga), (run_load _ s lb _ Gb); inversion Hv; reflexivity.
+  unfold is_nan. rewrite FloatAxioms.eqb_spec. unfold SpecFloat.SFeqb, SpecFloat.SFcompare.
+  destruct (Prim2SF x) as [s|s| |s m e]; try reflexivity.
+  - destruct s; reflexivity.
+  - rewrite Z.compare_refl, Pos.compare_cont_refl. destruct s; reflexivity.
 Qed.
-
-(* the operator on two cells that hold plain values: one allocation of the result *)
-Lemma dispatch_tie op op' lt rt s la lb a b v :
-  trop op = Some op' -> op <> C.BEq -> op <> C.BNe ->
-  holds (st_heap s) la a -> holds (st_heap s) lb b -> C.eval_binop op lt rt a b = Some v ->
-  exists hv, bin_dispatch op' la lb s = (Ok (hnext (st_heap s)), allocst s hv) /\
-             (forall h l, hget h l = Some hv -> holds h l v).
+Lemma float_mod_fmod x y : Vm.float_mod x y = fmod x y.
 Proof.
-  intros T N1 N2 Ha Hb Hv. unfold bin_dispatch.
-  destruct Ha as [la x Ga|la x Ga|la x Ga Aa], Hb as [lb y Gb|lb y Gb|lb y Gb Ab];
-    destruct op; try congruence; simpl in T; inversion T; subst op'; clear T;
-    simpl in Hv; destruct lt, rt; try discriminate Hv;
-    rewrite (run_load _ s la _ Ga); cbv iota;
-    first [rewrite (run_load_num _ s lb _ Gb) | rewrite (run_load_str _ s lb _ Gb) | rewrite (run_load_bool _ s lb _ Gb)];
-    cbn [bin_num bin_str bin_bool].
-  all: try (destruct (PrimFloat.eqb y 0); [discriminate Hv|]).
-  all: inversion Hv; subst v; clear Hv; eexists; (split; [reflexivity|]); intros h l Hl.
-  all: try (apply h_num; exact Hl); try (apply h_bool; exact Hl).
-  all: try (apply h_str; [exact Hl | apply is_ascii_app; assumption]).
+  unfold Vm.float_mod, fmod. rewrite !is_nan_spec.
+  destruct (Prim2SF x) as [sx|sx| |sx mx ex], (Prim2SF y) as [sy|sy| |sy my ey]; try reflexivity.
 Qed.
 
 Lemma run_depth {A} (k : nat -> M A) s : bindM depth_fuel k s = k value_depth s.
 Proof. reflexivity. Qed.
 
+(* copying the value of one cell to another cell of a larger heap *)
+Lemma holds_of_cell h h' l c v hv :
+  heap_extends h h' -> holds h l v -> hget h l = Some hv -> hget h' c = Some hv -> holds h' c v.
+Proof.
+  intros X H G G'. destruct H as [l f G0|l b G0|l x G0 A|l ls vs G0 F]; rewrite G in G0; inversion G0; subst.
+  - apply h_num; auto.
+  - apply h_bool; auto.
+  - apply h_str; auto.
+  - apply (h_arr h' c ls vs); auto. eapply Forall2_impl; [|exact F]. intros; eapply holds_ext; eauto.
+Qed.
+
+(* copyOrRef of a held cell: a fresh cell for a basic value, the same cell for an array *)
+Lemma copy_tie d s l v : good s -> holds (st_heap s) l v ->
+  exists c s', copy_or_ref (S d) l s = (Ok c, s') /\ holds (st_heap s') c v /\ sext s s'.
+Proof.
+  intros G H. destruct (holds_cell _ _ _ H) as (hv & Gl & [B|Cc]).
+  - exists (hnext (st_heap s)), (allocst s hv). split; [apply (basic_copied d l s hv Gl B)|].
+    split; [|apply sext_allocst; auto].
+    eapply holds_of_cell; [apply (sext_heap _ _ (sext_allocst s hv G)) | exact H | exact Gl | apply hget_allocst].
+  - exists l, s. split; [apply (composite_shared d l s hv Gl Cc)|]. split; [exact H | apply sext_refl; auto].
+Qed.
+
+Lemma copy_list_tie d : forall ls vs s, good s -> Forall2 (holds (st_heap s)) ls vs ->
+  exists ls' s', mapM (copy_or_ref (S d)) ls s = (Ok ls', s') /\ Forall2 (holds (st_heap s')) ls' vs /\ sext s s'.
+Proof.
+  induction ls as [|l t IH]; intros vs s G F; inversion F as [|? v ? vt Hl Ft]; subst.
+  - exists [], s. split; [reflexivity|]. split; [constructor | apply sext_refl; auto].
+  - destruct (copy_tie d s l v G Hl) as (c & s1 & Hc & Hh & X1).
+    assert (Ft1 : Forall2 (holds (st_heap s1)) t vt).
+    { eapply Forall2_impl; [|exact Ft]. intros; eapply holds_ext; [apply (sext_heap _ _ X1) | eauto]. }
+    destruct (IH vt s1 (sext_good _ _ X1) Ft1) as (t' & s2 & Ht & Hh2 & X2).
+    exists (c :: t'), s2. split.
+    + cbn [mapM]. rewrite (run_ok _ _ _ _ _ Hc), (run_ok _ _ _ _ _ Ht). reflexivity.
+    + split; [|eapply sext_trans; eauto]. constructor; auto.
+      eapply holds_ext; [apply (sext_heap _ _ X2) | exact Hh].
+Qed.
+
+(* value.Equals on two cells that hold plain values, one of them a scalar *)
+Lemma equals_tie d s la lb a b t :
+  holds (st_heap s) la a -> holds (st_heap s) lb b -> scalar a \/ scalar b -> Vm.val_equals a b = Some t ->
+  equals (S d) la lb s = (Ok t, s).
+Proof.
+  intros Ha Hb Sc Hv. simpl.
+  destruct Ha as [la x Ga|la x Ga|la x Ga Aa|la xs vxs Ga Fa], Hb as [lb y Gb|lb y Gb|lb y Gb Ab|lb ys vys Gb Fb];
+    simpl in Hv; try discriminate; try (destruct Sc as [[]|[]]; fail);
+    rewrite (run_load _ s la _ Ga), (run_load _ s lb _ Gb); inversion Hv; reflexivity.
+Qed.
+
+Lemma Forall2_app_holds h a va b vb :
+  Forall2 (holds h) a va -> Forall2 (holds h) b vb -> Forall2 (holds h) (a ++ b) (va ++ vb).
+Proof. intros F G. induction F; simpl; auto. Qed.
+
+(* the operator on two cells that hold plain values (no repetition of arrays) *)
+Lemma dispatch_tie op op' lt rt s la lb a b v :
+  trop op = Some op' -> op <> Compile.BEq -> op <> Compile.BNe -> (op = Compile.BStar -> lt <> Compile.TArr) -> good s ->
+  holds (st_heap s) la a -> holds (st_heap s) lb b -> Compile.eval_binop op lt rt a b = Some v ->
+  exists l s', bin_dispatch op' la lb s = (Ok l, s') /\ holds (st_heap s') l v /\ sext s s'.
+Proof.
+  intros T N1 N2 NR G Ha Hb Hv. unfold bin_dispatch.
+  destruct Ha as [la x Ga|la x Ga|la x Ga Aa|la xs vxs Ga Fa], Hb as [lb y Gb|lb y Gb|lb y Gb Ab|lb ys vys Gb Fb];
+    destruct op; try congruence; simpl in T; inversion T; subst op'; clear T;
+    simpl in Hv; destruct lt, rt; try discriminate Hv; try (exfalso; apply NR; reflexivity);
+    rewrite (run_load _ s la _ Ga); cbv iota.
+  (* array + array *)
+  15: { inversion Hv; subst v; clear Hv. unfold bin_arr. rewrite (run_load _ s lb _ Gb), run_depth.
+        destruct value_depth_S as [d Hd]. rewrite Hd.
+        destruct (copy_list_tie d xs vxs s G Fa) as (xs' & s1 & Hx & Hhx & X1).
+        assert (Fb1 : Forall2 (holds (st_heap s1)) ys vys)
+          by (eapply Forall2_impl; [|exact Fb]; intros; eapply holds_ext; [apply (sext_heap _ _ X1) | eauto]).
+        destruct (copy_list_tie d ys vys s1 (sext_good _ _ X1) Fb1) as (ys' & s2 & Hy & Hhy & X2).
+        rewrite (run_ok _ _ _ _ _ Hx), (run_ok _ _ _ _ _ Hy).
+        exists (hnext (st_heap s2)), (allocst s2 (HArr (xs' ++ ys'))).
+        split; [reflexivity|].
+        pose proof (sext_allocst s2 (HArr (xs' ++ ys')) (sext_good _ _ X2)) as X3.
+        split; [|eapply sext_trans; [exact X1|]; eapply sext_trans; eauto].
+        apply (h_arr _ _ (xs' ++ ys') (vxs ++ vys)); [apply hget_allocst|].
+        apply Forall2_app_holds.
+        - eapply Forall2_impl; [|exact Hhx]. intros; eapply holds_ext;
+            [eapply heap_extends_trans; [apply (sext_heap _ _ X2) | apply (sext_heap _ _ X3)] | eauto].
+        - eapply Forall2_impl; [|exact Hhy]. intros; eapply holds_ext; [apply (sext_heap _ _ X3) | eauto]. }
+  all: first [rewrite (run_load_num _ s lb _ Gb) | rewrite (run_load_str _ s lb _ Gb) | rewrite (run_load_bool _ s lb _ Gb)];
+       cbn [bin_num bin_str bin_bool].
+  all: try (destruct (PrimFloat.eqb y 0); [discriminate Hv|]).
+  all: inversion Hv; subst v; clear Hv;
+       eexists _, (allocst s _); (split; [reflexivity|]); (split; [|apply sext_allocst; auto]).
+  all: try (apply h_num; apply hget_allocst); try (apply h_bool; apply hget_allocst).
+  all: try (rewrite float_mod_fmod; apply h_num; apply hget_allocst).
+  all: try (apply h_str; [apply hget_allocst | apply is_ascii_app; assumption]).
+Qed.
+
 Lemma short_of_trop op op' v : trop op = Some op' -> short_of op' v = false.
 Proof. destruct op; simpl; intro T; inversion T; subst; reflexivity. Qed.
 
-Theorem tie_expr P : forall e x, xrel e x -> forall lenv E s v,
-  tfrag_e e = true -> C.eval_expr (fun n => CS.slook n lenv) e = Some v ->
-  envrel lenv E s -> good s -> ev_ok P E x s v.
+(* a manifestly scalar expression has a scalar value whenever it has one *)
+Lemma scalar_valued_sound env : forall e v, scalar_valued e = true -> Compile.eval_expr env e = Some v -> scalar v.
 Proof.
-  induction 1 as [f|b|str0|n t|e x Hx0 IH|e x Hx0 IH|e x Hx0 IH|op op' lt rt t l r xl xr H Hxl IHl Hxr IHr];
+  fix IH 1. intros e v S Ev. destruct e; simpl in S; try discriminate; simpl in Ev.
+  - inversion Ev; exact I.
+  - inversion Ev; exact I.
+  - inversion Ev; exact I.
+  - destruct op; try discriminate;
+      destruct (Compile.eval_expr env e) as [[]|]; try discriminate; inversion Ev; exact I.
+  - destruct (Compile.eval_expr env e1) as [a|]; [|discriminate]. destruct (Compile.eval_expr env e2) as [b|]; [|discriminate].
+    unfold Compile.eval_binop in Ev.
+    destruct op; try discriminate;
+      try (destruct (Vm.val_equals a b); [inversion Ev; exact I | discriminate]);
+      destruct lt; try discriminate; destruct rt; try discriminate;
+      destruct a; try discriminate; destruct b; try discriminate;
+      try (destruct (PrimFloat.eqb _ 0); try discriminate); inversion Ev; exact I.
+  - apply (IH e v S Ev).
+Qed.
+
+(* indices *)
+Lemma norm_idx_eq f n b i : Vm.normalize_index f n b = Vm.IOk i -> normalize_index f n b = Ok i.
+Proof.
+  unfold Vm.normalize_index, normalize_index.
+  change (Vm.go_int_exact f) with (Num.go_int_exact f).
+  destruct (go_int_exact f) as [z|]; [|discriminate].
+  destruct ((z <? - Z.of_nat n) || ((if b then Z.of_nat n else Z.of_nat n - 1) <? z))%Z; [discriminate|].
+  destruct (z <? 0)%Z; intro H; inversion H; reflexivity.
+Qed.
+Lemma norm_idx_lt f n i : Vm.normalize_index f n false = Vm.IOk i -> (i < n)%nat.
+Proof.
+  unfold Vm.normalize_index. destruct (Vm.go_int_exact f) as [z|]; [|discriminate].
+  destruct ((z <? - Z.of_nat n) || (Z.of_nat n - 1 <? z))%Z eqn:Q; [discriminate|].
+  apply orb_false_iff in Q as [Q1 Q2]. apply Z.ltb_ge in Q1, Q2.
+  destruct (z <? 0)%Z eqn:Q3; intro H; inversion H; subst.
+  - apply Z.ltb_lt in Q3. lia.
+  - apply Z.ltb_ge in Q3. lia.
+Qed.
+Lemma Forall2_nth_holds h ls vs i v :
+  Forall2 (holds h) ls vs -> nth_error vs i = Some v -> exists l, nth_error ls i = Some l /\ holds h l v.
+Proof.
+  intro F. revert i. induction F as [|l w lt vt Hl F IH]; intros [|i] H; simpl in *; try discriminate.
+  - inversion H; subst. eauto.
+  - apply IH; auto.
+Qed.
+Lemma Forall2_len_holds h ls vs : Forall2 (holds h) ls vs -> List.length ls = List.length vs.
+Proof. induction 1; simpl; auto. Qed.
+Lemma dec_ascii_fuel : forall s n, is_ascii s = true -> (List.length s <= n)%nat -> Vm.utf8_decode_fuel n s = s.
+Proof.
+  induction s as [|c t IH]; intros n A L; destruct n; simpl in *; auto; try lia.
+  unfold is_ascii in A. simpl in A. apply andb_true_iff in A as [A1 A2].
+  rewrite A1. simpl. f_equal. apply IH; auto. lia.
+Qed.
+Lemma dec_ascii s : is_ascii s = true -> Vm.utf8_decode s = s.
+Proof. intro A. apply dec_ascii_fuel; auto. Qed.
+Lemma nth_first_skip {A} (l : list A) i c : nth_error l i = Some c -> firstn 1 (skipn i l) = [c].
+Proof. revert i. induction l as [|a t IH]; intros [|i] H; simpl in *; try discriminate; [inversion H; auto | auto]. Qed.
+Lemma is_ascii_nth s i c : is_ascii s = true -> nth_error s i = Some c -> is_ascii [c] = true.
+Proof.
+  unfold is_ascii. intros A H. apply nth_error_In in H. rewrite forallb_forall in A. simpl. rewrite (A c H). reflexivity.
+Qed.
+
+Definition evs_ok (P : program) (E : env) (xs : list expr) (s : state) (vs : list Vm.value) : Prop :=
+  exists N ls s', eval_exprs N P E xs s = (Ok ls, s') /\ Forall2 (holds (st_heap s')) ls vs /\ sext s s'.
+
+Lemma exprs_mono P n m E x s l s' : (n <= m)%nat ->
+  eval_exprs n P E x s = (Ok l, s') -> eval_exprs m P E x s = (Ok l, s').
+Proof. intros L H. eapply (proj1 (proj2 (fuel_mono n m L))); [exact H | discriminate]. Qed.
+
+Theorem tie_expr_all P :
+  (forall e x, xrel e x -> forall lenv E s v,
+     tfrag_e e = true -> Compile.eval_expr (fun n => CompileSem.slook n lenv) e = Some v ->
+     envrel lenv E s -> good s -> ev_ok P E x s v) /\
+  (forall l xl, xlrel l xl -> forall lenv E s vs,
+     tfrag_el l = true -> Compile.eval_list (fun n => CompileSem.slook n lenv) l = Some vs ->
+     envrel lenv E s -> good s -> evs_ok P E xl s vs).
+Proof.
+  apply xrel_xlrel_ind;
+    [ intros f | intros b | intros str0 | intros n t | intros e x Hx0 IH | intros e x Hx0 IH | intros e x Hx0 IH
+    | intros op op' lt rt t l r xl xr H Hxl IHl Hxr IHr
+    | intros l xl t Hl IHl | intros l i xl xi t Hxl IHl Hxi IHi
+    | | intros e t x xt Hx0 IHx Hxt IHt ];
     intros lenv E s v Fr Ev R G; simpl in Fr, Ev.
   - inversion Ev; subst. apply ev_lit with (hv := HNum f); auto. intros; apply h_num; auto.
   - inversion Ev; subst. apply ev_lit with (hv := HBool b); auto. intros; apply h_bool; auto.
@@ -292,7 +491,7 @@ Proof.
     exists (S N), l, s'. split; [|split; [exact Hl | eapply sext_trans; [apply sext_tickst; auto | exact X]]].
     cbn [eval_expr]. rewrite (run_tick _ s G). exact Hx.
   - (* unary minus *)
-    destruct (C.eval_expr _ e) as [[f| | | | | |]|] eqn:Ee; try discriminate. inversion Ev; subst v.
+    destruct (Compile.eval_expr _ e) as [[f| | | | | |]|] eqn:Ee; try discriminate. inversion Ev; subst v.
     pose proof (envrel_sext _ _ _ _ (sext_tickst s G) R) as R1.
     destruct (IH _ _ _ _ Fr Ee R1 (good_tickst s G)) as (N & l & s' & Hx & Hl & X).
     inversion Hl; subst.
@@ -302,7 +501,7 @@ Proof.
     + eapply sext_trans; [apply sext_tickst; auto|]. eapply sext_trans; [exact X|].
       apply sext_allocst. eapply sext_good; eauto.
   - (* not *)
-    destruct (C.eval_expr _ e) as [[| b | | | | |]|] eqn:Ee; try discriminate. inversion Ev; subst v.
+    destruct (Compile.eval_expr _ e) as [[| b | | | | |]|] eqn:Ee; try discriminate. inversion Ev; subst v.
     pose proof (envrel_sext _ _ _ _ (sext_tickst s G) R) as R1.
     destruct (IH _ _ _ _ Fr Ee R1 (good_tickst s G)) as (N & l & s' & Hx & Hl & X).
     inversion Hl; subst.
@@ -312,79 +511,154 @@ Proof.
     + eapply sext_trans; [apply sext_tickst; auto|]. eapply sext_trans; [exact X|].
       apply sext_allocst. eapply sext_good; eauto.
   - (* binary *)
-    rewrite H in Fr. apply andb_true_iff in Fr as [Fl Fr].
-    destruct (C.eval_expr _ l) as [a|] eqn:El; [|discriminate].
-    destruct (C.eval_expr _ r) as [b|] eqn:Er; [|discriminate].
+    rewrite H in Fr. apply andb_true_iff in Fr as [Fr Fx]. apply andb_true_iff in Fr as [Fl Fr].
+    destruct (Compile.eval_expr _ l) as [a|] eqn:El; [|discriminate].
+    destruct (Compile.eval_expr _ r) as [b|] eqn:Er; [|discriminate].
     pose proof (envrel_sext _ _ _ _ (sext_tickst s G) R) as R1.
     destruct (IHl _ _ _ _ Fl El R1 (good_tickst s G)) as (N1 & la & s1 & Hx1 & Hl1 & X1).
     pose proof (envrel_sext _ _ _ _ X1 R1) as R2.
     destruct (IHr _ _ _ _ Fr Er R2 (sext_good _ _ X1)) as (N2 & lb & s2 & Hx2 & Hl2 & X2).
-    pose proof (holds_ext _ _ _ _ (sext_heap _ _ X2) Hl1) as Hl1'.
+    pose proof (holds_ext _ _ (sext_heap _ _ X2) _ _ Hl1) as Hl1'.
     apply (expr_mono P N1 (Nat.max N1 N2)) in Hx1; [|lia].
     apply (expr_mono P N2 (Nat.max N1 N2)) in Hx2; [|lia].
-    destruct (holds_basic _ _ _ Hl1) as (hva & Ga & _).
+    destruct (holds_cell _ _ _ Hl1) as (hva & Ga & _).
     assert (X02 : sext s s2).
     { eapply sext_trans; [apply sext_tickst; auto|]. eapply sext_trans; eauto. }
-    assert (Pre : forall k, eval_expr (S (Nat.max N1 N2)) P E (EBin op' t xl xr) s =
+    assert (Pr : eval_expr (S (Nat.max N1 N2)) P E (EBin op' t xl xr) s =
                (match op' with
                 | BEq => let* d := depth_fuel in let* r := equals d la lb in alloc (HBool r)
                 | BNotEq => let* d := depth_fuel in let* r := equals d la lb in alloc (HBool (negb r))
                 | _ => bin_dispatch op' la lb
-                end) s2 \/ k = 0%nat).
-    { intro k. left. rewrite eval_expr_EBin, (run_tick _ s G), (run_ok _ _ _ _ _ Hx1), (run_load _ s1 la _ Ga).
+                end) s2).
+    { rewrite eval_expr_EBin, (run_tick _ s G), (run_ok _ _ _ _ _ Hx1), (run_load _ s1 la _ Ga).
       rewrite (short_of_trop _ _ hva H), (run_ok _ _ _ _ _ Hx2). reflexivity. }
-    destruct (Pre 1%nat) as [Pr|]; [|discriminate]. clear Pre.
     destruct (value_depth_S) as [d Hd].
     destruct op; simpl in H; inversion H; subst op'; clear H.
-    9,10: simpl in Ev; destruct (Vm.val_equals a b) as [tb|] eqn:Q; [|discriminate]; inversion Ev; subst v;
+    10,11: simpl in Ev; destruct (Vm.val_equals a b) as [tb|] eqn:Q; [|discriminate]; inversion Ev; subst v;
+      assert (Sc : scalar a \/ scalar b)
+        by (apply orb_true_iff in Fx as [Fx|Fx];
+            [left; eapply scalar_valued_sound; eauto | right; eapply scalar_valued_sound; eauto]);
       rewrite run_depth, Hd in Pr;
-      rewrite (run_ok _ _ _ _ _ (equals_tie d s2 la lb a b tb Hl1' Hl2 Q)) in Pr;
+      rewrite (run_ok _ _ _ _ _ (equals_tie d s2 la lb a b tb Hl1' Hl2 Sc Q)) in Pr;
       eexists _, _, _; (split; [exact Pr|]); (split; [apply h_bool, hget_allocst|]);
       (eapply sext_trans; [exact X02 | apply sext_allocst; eapply sext_good; eauto]).
-    all: match type of Ev with C.eval_binop ?cop _ _ _ _ = _ =>
-           destruct (dispatch_tie cop _ lt rt s2 la lb a b v eq_refl ltac:(discriminate) ltac:(discriminate) Hl1' Hl2 Ev)
-             as (hv & D & Hh) end;
-         rewrite D in Pr; eexists _, _, _; (split; [exact Pr|]); (split; [apply Hh, hget_allocst|]);
-         (eapply sext_trans; [exact X02 | apply sext_allocst; eapply sext_good; eauto]).
+    all: match type of Ev with Compile.eval_binop ?cop _ _ _ _ = _ =>
+           destruct (dispatch_tie cop _ lt rt s2 la lb a b v eq_refl ltac:(discriminate) ltac:(discriminate)
+                       ltac:(first [intro Q; discriminate Q | intros _ Q; subst lt; discriminate Fx])
+                       (sext_good _ _ X02) Hl1' Hl2 Ev)
+             as (lr & s3 & D & Hh & X3) end;
+         rewrite D in Pr; eexists _, _, _; (split; [exact Pr|]); (split; [exact Hh|]);
+         (eapply sext_trans; [exact X02 | exact X3]).
+  - (* array literal *)
+    destruct (Compile.eval_list _ l) as [vs|] eqn:El; [|discriminate]. inversion Ev; subst v.
+    pose proof (envrel_sext _ _ _ _ (sext_tickst s G) R) as R1.
+    destruct (IHl _ _ _ _ Fr El R1 (good_tickst s G)) as (N & ls & s1 & Hx & Hh & X1).
+    pose proof (sext_allocst s1 (HArr ls) (sext_good _ _ X1)) as X2.
+    exists (S N), (hnext (st_heap s1)), (allocst s1 (HArr ls)). split; [|split].
+    + cbn [eval_expr]. rewrite (run_tick _ s G), (run_ok _ _ _ _ _ Hx). reflexivity.
+    + apply (h_arr _ _ ls vs); [apply hget_allocst|].
+      eapply Forall2_impl; [|exact Hh]. intros; eapply holds_ext; [apply (sext_heap _ _ X2) | eauto].
+    + eapply sext_trans; [apply sext_tickst; auto|]. eapply sext_trans; eauto.
+  - (* index *)
+    apply andb_true_iff in Fr as [Fl Fi].
+    destruct (Compile.eval_expr _ l) as [a|] eqn:El; [|discriminate].
+    destruct (Compile.eval_expr _ i) as [b|] eqn:Ei; [|discriminate].
+    destruct (Vm.index_value a b) as [w| |] eqn:Iv; try discriminate. inversion Ev; subst w.
+    pose proof (envrel_sext _ _ _ _ (sext_tickst s G) R) as R1.
+    destruct (IHl _ _ _ _ Fl El R1 (good_tickst s G)) as (N1 & la & s1 & Hx1 & Hl1 & X1).
+    pose proof (envrel_sext _ _ _ _ X1 R1) as R2.
+    destruct (IHi _ _ _ _ Fi Ei R2 (sext_good _ _ X1)) as (N2 & li & s2 & Hx2 & Hl2 & X2).
+    pose proof (holds_ext _ _ (sext_heap _ _ X2) _ _ Hl1) as Hl1'.
+    apply (expr_mono P N1 (Nat.max N1 N2)) in Hx1; [|lia].
+    apply (expr_mono P N2 (Nat.max N1 N2)) in Hx2; [|lia].
+    assert (X02 : sext s s2).
+    { eapply sext_trans; [apply sext_tickst; auto|]. eapply sext_trans; eauto. }
+    assert (Pr : forall k, eval_expr (S (Nat.max N1 N2)) P E (EIndex t xl xi) s =
+                 (let* va := load la in k va) s2 -> True) by auto. clear Pr.
+    unfold Vm.index_value in Iv.
+    destruct Hl1' as [la x Ga|la x Ga|la x Ga Aa|la ls vs Ga Fa]; try discriminate.
+    + (* a string *)
+      destruct Hl2 as [li f Gi|li y Gi|li y Gi Ai|li ys vys Gi Fi']; try discriminate.
+      rewrite (dec_ascii _ Aa) in Iv.
+      destruct (Vm.normalize_index f (List.length x) false) as [k|] eqn:Nk; [|discriminate]. inversion Iv; subst v.
+      pose proof (norm_idx_lt _ _ _ Nk) as Lk.
+      destruct (nth_error x k) as [c|] eqn:Nc; [|apply nth_error_None in Nc; lia].
+      change (match skipn k x with [] => [] | a0 :: _ => [a0] end) with (firstn 1 (skipn k x)).
+      rewrite (nth_first_skip _ _ _ Nc). pose proof (is_ascii_nth _ _ _ Aa Nc) as Ac. rewrite (utf8_ascii _ Ac).
+      exists (S (Nat.max N1 N2)), (hnext (st_heap s2)), (allocst s2 (HStr [c])). split; [|split].
+      * cbn [eval_expr]. rewrite (run_tick _ s G), (run_ok _ _ _ _ _ Hx1), (run_ok _ _ _ _ _ Hx2).
+        rewrite (run_load _ s2 la _ Ga), (run_load_num _ s2 li _ Gi).
+        unfold lift at 1. unfold bindM at 1. rewrite (norm_idx_eq _ _ _ _ Nk). rewrite Nc. reflexivity.
+      * apply h_str; [apply hget_allocst | exact Ac].
+      * eapply sext_trans; [exact X02 | apply sext_allocst; eapply sext_good; eauto].
+    + (* an array: the element cell itself *)
+      destruct Hl2 as [li f Gi|li y Gi|li y Gi Ai|li ys vys Gi Fi']; try discriminate.
+      destruct (Vm.normalize_index f (List.length vs) false) as [k|] eqn:Nk; [|discriminate].
+      destruct (nth_error vs k) as [w|] eqn:Nw; [|discriminate]. inversion Iv; subst w.
+      destruct (Forall2_nth_holds _ _ _ _ _ Fa Nw) as (le & Nl & Hle).
+      exists (S (Nat.max N1 N2)), le, s2. split; [|split; [exact Hle | exact X02]].
+      cbn [eval_expr]. rewrite (run_tick _ s G), (run_ok _ _ _ _ _ Hx1), (run_ok _ _ _ _ _ Hx2).
+      rewrite (run_load _ s2 la _ Ga), (run_load_num _ s2 li _ Gi).
+      unfold lift at 1. unfold bindM at 1. rewrite (Forall2_len_holds _ _ _ Fa), (norm_idx_eq _ _ _ _ Nk).
+      rewrite Nl. reflexivity.
+  - (* the empty list *)
+    inversion Ev; subst. exists 1%nat, [], s. split; [reflexivity|]. split; [constructor | apply sext_refl; auto].
+  - (* a list *)
+    apply andb_true_iff in Fr as [Fe Ft].
+    destruct (Compile.eval_expr _ e) as [w|] eqn:Ee; [|discriminate].
+    destruct (Compile.eval_list _ t) as [ws|] eqn:Et; [|discriminate]. inversion Ev; subst v.
+    destruct (IHx _ _ _ _ Fe Ee R G) as (N1 & l & s1 & Hx1 & Hl1 & X1).
+    destruct value_depth_S as [d Hd].
+    destruct (copy_tie d s1 l w (sext_good _ _ X1) Hl1) as (c & s2 & Hc & Hhc & X2).
+    assert (X12 : sext s s2) by (eapply sext_trans; eauto).
+    destruct (IHt _ _ _ _ Ft Et (envrel_sext _ _ _ _ X12 R) (sext_good _ _ X12)) as (N2 & ls & s3 & Hx3 & Hl3 & X3).
+    exists (S (Nat.max N1 N2)), (c :: ls), s3. split; [|split].
+    + cbn [eval_exprs]. rewrite (run_ok _ _ _ _ _ (expr_mono P N1 _ _ _ _ _ _ (Nat.le_max_l N1 N2) Hx1)).
+      rewrite run_depth, Hd, (run_ok _ _ _ _ _ Hc).
+      rewrite (run_ok _ _ _ _ _ (exprs_mono P N2 _ _ _ _ _ _ (Nat.le_max_r N1 N2) Hx3)). reflexivity.
+    + constructor; auto. eapply holds_ext; [apply (sext_heap _ _ X3) | exact Hhc].
+    + eapply sext_trans; eauto.
 Qed.
+
+Definition tie_expr P := proj1 (tie_expr_all P).
 
 (* ====================================================================== *)
 (* 5. Statements                                                           *)
 (* ====================================================================== *)
-Inductive srel : C.stmt -> stmt -> Prop :=
-| s_decl n t e x : xrel e x -> srel (C.SDecl n e) (SDecl n t x)
-| s_assign n t e x : xrel e x -> srel (C.SAssign (C.EVar n) e) (SAssign (EVar n t) x)
-| s_empty : srel C.SEmpty SNop
-| s_break : srel C.SBreak SBreak
+Inductive srel : Compile.stmt -> stmt -> Prop :=
+| s_decl n t e x : xrel e x -> srel (Compile.SDecl n e) (SDecl n t x)
+| s_assign n t e x : xrel e x -> srel (Compile.SAssign (Compile.EVar n) e) (SAssign (EVar n t) x)
+| s_empty : srel Compile.SEmpty SNop
+| s_break : srel Compile.SBreak SBreak
 | s_if c b elifs els xc xb xelifs xels :
     xrel c xc -> lrel b xb -> crel elifs xelifs -> orel els xels ->
-    srel (C.SIf c b elifs els) (SIf ((xc, xb) :: xelifs) xels)
-| s_while c b xc xb : xrel c xc -> lrel b xb -> srel (C.SWhile c b) (SWhile xc xb)
-with lrel : C.slist -> list stmt -> Prop :=
-| l_nil : lrel C.SNil []
-| l_cons s t x xt : srel s x -> lrel t xt -> lrel (C.SCons s t) (x :: xt)
-with crel : C.clist -> list (expr * list stmt) -> Prop :=
-| c_nil : crel C.CNil []
-| c_cons c b t xc xb xt : xrel c xc -> lrel b xb -> crel t xt -> crel (C.CCons c b t) ((xc, xb) :: xt)
-with orel : C.oslist -> option (list stmt) -> Prop :=
-| o_none : orel C.NoElse None
-| o_some b xb : lrel b xb -> orel (C.Else b) (Some xb).
+    srel (Compile.SIf c b elifs els) (SIf ((xc, xb) :: xelifs) xels)
+| s_while c b xc xb : xrel c xc -> lrel b xb -> srel (Compile.SWhile c b) (SWhile xc xb)
+with lrel : Compile.slist -> list stmt -> Prop :=
+| l_nil : lrel Compile.SNil []
+| l_cons s t x xt : srel s x -> lrel t xt -> lrel (Compile.SCons s t) (x :: xt)
+with crel : Compile.clist -> list (expr * list stmt) -> Prop :=
+| c_nil : crel Compile.CNil []
+| c_cons c b t xc xb xt : xrel c xc -> lrel b xb -> crel t xt -> crel (Compile.CCons c b t) ((xc, xb) :: xt)
+with orel : Compile.oslist -> option (list stmt) -> Prop :=
+| o_none : orel Compile.NoElse None
+| o_some b xb : lrel b xb -> orel (Compile.Else b) (Some xb).
 
 (* the statement fragment of the tie *)
-Fixpoint tfrag_s (s : C.stmt) : bool :=
+Fixpoint tfrag_s (s : Compile.stmt) : bool :=
   match s with
-  | C.SDecl n e => name_ok n && tfrag_e e
-  | C.SAssign (C.EVar n) e => name_ok n && tfrag_e e
-  | C.SEmpty | C.SBreak => true
-  | C.SIf c b elifs els =>
-      tfrag_e c && tfrag_l b && tfrag_c elifs && match els with C.NoElse => true | C.Else eb => tfrag_l eb end
-  | C.SWhile c b => tfrag_e c && tfrag_l b
+  | Compile.SDecl n e => name_ok n && tfrag_e e
+  | Compile.SAssign (Compile.EVar n) e => name_ok n && tfrag_e e
+  | Compile.SEmpty | Compile.SBreak => true
+  | Compile.SIf c b elifs els =>
+      tfrag_e c && tfrag_l b && tfrag_c elifs && match els with Compile.NoElse => true | Compile.Else eb => tfrag_l eb end
+  | Compile.SWhile c b => tfrag_e c && tfrag_l b
   | _ => false
   end
-with tfrag_l (l : C.slist) : bool :=
-  match l with C.SNil => true | C.SCons s t => tfrag_s s && tfrag_l t end
-with tfrag_c (l : C.clist) : bool :=
-  match l with C.CNil => true | C.CCons c b t => tfrag_e c && tfrag_l b && tfrag_c t end.
+with tfrag_l (l : Compile.slist) : bool :=
+  match l with Compile.SNil => true | Compile.SCons s t => tfrag_s s && tfrag_l t end
+with tfrag_c (l : Compile.clist) : bool :=
+  match l with Compile.CNil => true | Compile.CCons c b t => tfrag_e c && tfrag_l b && tfrag_c t end.
 
 (* fuel monotonicity of the statement-level functions, for successful runs *)
 Lemma stmt_mono P n m E x s r s' : (n <= m)%nat ->
@@ -403,7 +677,7 @@ Proof.
 Qed.
 
 (* ---------- frames ---------- *)
-Lemma alook_cons n m v lf : CS.alook m ((n, v) :: lf) = if str_eqb n m then Some v else CS.alook m lf.
+Lemma alook_cons n m v lf : CompileSem.alook m ((n, v) :: lf) = if str_eqb n m then Some v else CompileSem.alook m lf.
 Proof. reflexivity. Qed.
 
 Lemma frel_in_decl h n v c lf sf :
@@ -441,7 +715,7 @@ Qed.
 (* x := e *)
 Lemma decl_tie lenv E s n v c :
   envrel lenv E s -> name_ok n = true -> holds (st_heap s) c v ->
-  exists E' s', set_var n c E s = (Ok E', s') /\ envrel (CS.sdecl n v lenv) E' s' /\
+  exists E' s', set_var n c E s = (Ok E', s') /\ envrel (CompileSem.sdecl n v lenv) E' s' /\
                 st_heap s' = st_heap s /\ List.length E' = List.length E /\
                 (forall t, t = s' -> st_trace t = st_trace s /\ st_stopped t = st_stopped s /\
                                      st_stop_at t = st_stop_at s /\ st_total t = st_total s /\ st_fails t = st_fails s).
@@ -461,7 +735,7 @@ Qed.
 
 (* x = e *)
 Lemma assign_tie lenv E s n v c lenv' :
-  envrel lenv E s -> name_ok n = true -> holds (st_heap s) c v -> CS.sassign n v lenv = Some lenv' ->
+  envrel lenv E s -> name_ok n = true -> holds (st_heap s) c v -> CompileSem.sassign n v lenv = Some lenv' ->
   exists E' s', update_var n c E s = (Ok E', s') /\ envrel lenv' E' s' /\
                 st_heap s' = st_heap s /\ List.length E' = List.length E /\
                 (forall t, t = s' -> st_trace t = st_trace s /\ st_stopped t = st_stopped s /\
@@ -470,7 +744,7 @@ Proof.
   intros (lfs & gf & -> & F & FG) N H A. unfold update_var. unfold name_ok in N.
   apply negb_true_iff in N. rewrite N.
   revert lenv' A. induction F as [|lf sf lt st Hf F IH]; intros lenv' A; simpl in A |- *.
-  - destruct (CS.alook n gf) as [w|] eqn:Q; [|discriminate]. inversion A; subst lenv'.
+  - destruct (CompileSem.alook n gf) as [w|] eqn:Q; [|discriminate]. inversion A; subst lenv'.
     destruct (FG n w Q) as (l0 & G0 & _). rewrite G0.
     eexists [], _. split; [reflexivity|]. split.
     + exists [], ((n, v) :: gf). split; [reflexivity|]. split; [constructor|].
@@ -482,7 +756,7 @@ Proof.
       * exists (((n, v) :: lf) :: lt), gf. split; [reflexivity|]. split; [|exact FG].
         constructor; auto. eapply frel_in_assign; eauto.
       * simpl. repeat split; intros; subst; reflexivity.
-    + rewrite Hn in A. destruct (CS.sassign n v (lt ++ [gf])) as [r|] eqn:Q; [|discriminate].
+    + rewrite Hn in A. destruct (CompileSem.sassign n v (lt ++ [gf])) as [r|] eqn:Q; [|discriminate].
       inversion A; subst lenv'. destruct (IH _ eq_refl) as (E' & s' & U & R' & Hh & Hlen & Hrest).
       destruct (env_update n c st) as [st'|] eqn:U'.
       * inversion U; subst. eexists _, _. split; [reflexivity|]. split.
@@ -548,19 +822,19 @@ Section Stmts.
   (* the statement list part of the induction, at a given fuel of lx *)
   Definition list_tie (f : nat) : Prop :=
     forall l xl lenv E s lenv' br,
-      CS.lx_l f l lenv = Some (lenv', br) -> lrel l xl -> tfrag_l l = true -> envrel lenv E s -> good s ->
+      CompileSem.lx_l f l lenv = Some (lenv', br) -> lrel l xl -> tfrag_l l = true -> envrel lenv E s -> good s ->
       exists N sig E' s', exec_stmts N P E xl s = (Ok (sig, E'), s') /\ sigbr sig br /\
                           envrel lenv' E' s' /\ gext s s' /\ List.length E' = List.length E.
 
   (* a block: push, run, pop *)
   Lemma block_tie f b xb lenv E s lenv1 br :
-    list_tie f -> CS.leave (CS.lx_l f b ([] :: lenv)) = Some (lenv1, br) ->
+    list_tie f -> CompileSem.leave (CompileSem.lx_l f b ([] :: lenv)) = Some (lenv1, br) ->
     lrel b xb -> tfrag_l b = true -> envrel lenv E s -> good s ->
     exists N sig E2 s', exec_block N P ([] :: E) xb s = (Ok (sig, E2), s') /\ sigbr sig br /\
                         envrel lenv1 (tl E2) s' /\ gext s s' /\ List.length (tl E2) = List.length E.
   Proof.
-    intros HL Hl Rb Fb R G. unfold CS.leave in Hl.
-    destruct (CS.lx_l f b ([] :: lenv)) as [[lenv2 br2]|] eqn:Q; [|discriminate]. inversion Hl; subst.
+    intros HL Hl Rb Fb R G. unfold CompileSem.leave in Hl.
+    destruct (CompileSem.lx_l f b ([] :: lenv)) as [[lenv2 br2]|] eqn:Q; [|discriminate]. inversion Hl; subst.
     pose proof (envrel_sext _ _ _ _ (sext_tickst s G) (envrel_push _ _ _ R)) as R1.
     destruct (HL _ _ _ _ _ _ _ Q Rb Fb R1 (good_tickst s G)) as (N & sig & E2 & s' & Hx & Hs & R2 & X & Hlen).
     exists (S N), sig, E2, s'. split; [cbn [exec_block]; rewrite (run_tick _ s G); exact Hx|].
@@ -572,8 +846,8 @@ Section Stmts.
 
   (* a condition with its block *)
   Lemma cond_true_tie f c b xc xb lenv E s lenv1 br :
-    list_tie f -> C.eval_expr (fun n => CS.slook n lenv) c = Some (Vm.VBool true) ->
-    CS.leave (CS.lx_l f b ([] :: lenv)) = Some (lenv1, br) ->
+    list_tie f -> Compile.eval_expr (fun n => CompileSem.slook n lenv) c = Some (Vm.VBool true) ->
+    CompileSem.leave (CompileSem.lx_l f b ([] :: lenv)) = Some (lenv1, br) ->
     xrel c xc -> lrel b xb -> tfrag_e c = true -> tfrag_l b = true -> envrel lenv E s -> good s ->
     exists N sig E1 s', exec_cond N P E xc xb s = (Ok (Some sig, E1), s') /\ sigbr sig br /\
                         envrel lenv1 E1 s' /\ gext s s' /\ List.length E1 = List.length E.
@@ -594,7 +868,7 @@ Section Stmts.
   Qed.
 
   Lemma cond_false_tie c xc xb lenv E s :
-    C.eval_expr (fun n => CS.slook n lenv) c = Some (Vm.VBool false) ->
+    Compile.eval_expr (fun n => CompileSem.slook n lenv) c = Some (Vm.VBool false) ->
     xrel c xc -> tfrag_e c = true -> envrel lenv E s -> good s ->
     exists N s', exec_cond N P E xc xb s = (Ok (None, E), s') /\ envrel lenv E s' /\ gext s s'.
   Proof.
@@ -625,13 +899,6 @@ Proof.
     rewrite (cond_mono P n m _ _ _ _ _ _ L Q). destruct o; [exact H | apply IH; exact H].
 Qed.
 
-Lemma holds_of_cell h h' l c v hv :
-  holds h l v -> hget h l = Some hv -> hget h' c = Some hv -> holds h' c v.
-Proof.
-  intros H G G'. destruct H; rewrite G in *; match goal with Q : Some _ = Some _ |- _ => inversion Q; subst end;
-    [apply h_num | apply h_bool | apply h_str]; auto.
-Qed.
-
 (* destruct the scrutinee of the match at the head of an equation in H *)
 Ltac dscrut H Hl :=
   match type of H with (match ?t with _ => _ end) = _ => destruct t eqn:Hl end.
@@ -641,26 +908,26 @@ Section Main.
 
   Definition stmt_tie (f : nat) : Prop :=
     forall st x lenv E s lenv' br,
-      CS.lx_s f st lenv = Some (lenv', br) -> srel st x -> tfrag_s st = true -> envrel lenv E s -> good s ->
+      CompileSem.lx_s f st lenv = Some (lenv', br) -> srel st x -> tfrag_s st = true -> envrel lenv E s -> good s ->
       exists N sig E' s', exec_stmt N P E x s = (Ok (sig, E'), s') /\ sigbr sig br /\
                           envrel lenv' E' s' /\ gext s s' /\ List.length E' = List.length E.
   Definition conds_tie (f : nat) : Prop :=
     forall cl els xcl xels lenv E s lenv' br,
-      CS.lx_c f cl els lenv = Some (lenv', br) -> crel cl xcl -> orel els xels -> tfrag_c cl = true ->
-      match els with C.NoElse => true | C.Else eb => tfrag_l eb end = true -> envrel lenv E s -> good s ->
+      CompileSem.lx_c f cl els lenv = Some (lenv', br) -> crel cl xcl -> orel els xels -> tfrag_c cl = true ->
+      match els with Compile.NoElse => true | Compile.Else eb => tfrag_l eb end = true -> envrel lenv E s -> good s ->
       exists N sig E' s',
         SemStore.if_go (exec_cond N P) (exec_block N P) xels xcl E s = (Ok (sig, E'), s') /\ sigbr sig br /\
         envrel lenv' E' s' /\ gext s s' /\ List.length E' = List.length E.
   Definition while_tie (f : nat) : Prop :=
     forall c b xc xb lenv E s lenv' br,
-      CS.lx_s f (C.SWhile c b) lenv = Some (lenv', br) -> xrel c xc -> lrel b xb ->
+      CompileSem.lx_s f (Compile.SWhile c b) lenv = Some (lenv', br) -> xrel c xc -> lrel b xb ->
       tfrag_e c = true -> tfrag_l b = true -> envrel lenv E s -> good s ->
       exists N E' s', exec_while N P E xc xb s = (Ok (SigNone, E'), s') /\ br = false /\
                       envrel lenv' E' s' /\ gext s s' /\ List.length E' = List.length E.
 
   (* the value of a declaration / assignment: evaluate, copy *)
   Lemma value_copy_tie e x lenv E s v :
-    xrel e x -> tfrag_e e = true -> C.eval_expr (fun n => CS.slook n lenv) e = Some v ->
+    xrel e x -> tfrag_e e = true -> Compile.eval_expr (fun n => CompileSem.slook n lenv) e = Some v ->
     envrel lenv E s -> good s ->
     exists N c s2, (let* v0 := eval_expr N P E x in let* d := depth_fuel in copy_or_ref d v0) (tickst s) = (Ok c, s2) /\
                    holds (st_heap s2) c v /\ sext s s2.
@@ -668,18 +935,17 @@ Section Main.
     intros Rx Fx Ev R G.
     destruct (tie_expr P e x Rx lenv E (tickst s) v Fx Ev (envrel_sext _ _ _ _ (sext_tickst s G) R) (good_tickst s G))
       as (N & l & s1 & Hx & Hh & X1).
-    destruct (holds_basic _ _ _ Hh) as (hv & Gl & Bl). destruct value_depth_S as [d Hd].
-    exists N, (hnext (st_heap s1)), (allocst s1 hv). split.
-    - rewrite (run_ok _ _ _ _ _ Hx), run_depth, Hd. apply (basic_copied d l s1 hv Gl Bl).
-    - split; [eapply holds_of_cell; [exact Hh | exact Gl | apply hget_allocst]|].
-      eapply sext_trans; [apply sext_tickst; auto|]. eapply sext_trans; [exact X1|].
-      apply sext_allocst. eapply sext_good; eauto.
+    destruct value_depth_S as [d Hd].
+    destruct (copy_tie d s1 l v (sext_good _ _ X1) Hh) as (c & s2 & Hc & Hhc & X2).
+    exists N, c, s2. split.
+    - rewrite (run_ok _ _ _ _ _ Hx), run_depth, Hd. exact Hc.
+    - split; [exact Hhc|]. eapply sext_trans; [apply sext_tickst; auto|]. eapply sext_trans; eauto.
   Qed.
 
   Lemma while_step f : list_tie P f -> while_tie f -> while_tie (S f).
   Proof.
-    intros IL IW c b xc xb lenv E s lenv' br H Rc Rb Fc Fb R G. cbn [CS.lx_s] in H.
-    destruct (C.eval_expr (fun x => CS.slook x lenv) c) as [[| [|] | | | | |]|] eqn:Ec; try discriminate.
+    intros IL IW c b xc xb lenv E s lenv' br H Rc Rb Fc Fb R G. cbn [CompileSem.lx_s] in H.
+    destruct (Compile.eval_expr (fun x => CompileSem.slook x lenv) c) as [[| [|] | | | | |]|] eqn:Ec; try discriminate.
     - (* the condition holds *)
       dscrut H Hl; [|discriminate H]. destruct p as [env1 br1].
       destruct (cond_true_tie P f c b xc xb lenv E s env1 br1 IL Ec Hl Rc Rb Fc Fb R G)
@@ -703,7 +969,7 @@ Section Main.
 
   Lemma conds_step f : list_tie P f -> conds_tie f -> conds_tie (S f).
   Proof.
-    intros IL IC cl els xcl xels lenv E s lenv' br H Rc Ro Fc Fo R G. cbn [CS.lx_c] in H.
+    intros IL IC cl els xcl xels lenv E s lenv' br H Rc Ro Fc Fo R G. cbn [CompileSem.lx_c] in H.
     inversion Rc as [|c b t xc xb xt Rc1 Rb1 Rt1]; subst.
     - (* no condition left: the else block, if any *)
       inversion Ro as [|eb xeb Reb]; subst.
@@ -711,7 +977,7 @@ Section Main.
       + destruct (block_tie P f eb xeb lenv E s lenv' br IL H Reb Fo R G) as (N & sig & E2 & s' & Hb & Hs & R2 & X & Hlen).
         exists N, sig, (tl E2), s'. simpl. rewrite (run_ok _ _ _ _ _ Hb). auto.
     - simpl in Fc. apply andb_true_iff in Fc as [Fc Ft]. apply andb_true_iff in Fc as [Fc1 Fb1].
-      destruct (C.eval_expr (fun x => CS.slook x lenv) c) as [[| [|] | | | | |]|] eqn:Ec; try discriminate.
+      destruct (Compile.eval_expr (fun x => CompileSem.slook x lenv) c) as [[| [|] | | | | |]|] eqn:Ec; try discriminate.
       + destruct (cond_true_tie P f c b xc xb lenv E s lenv' br IL Ec H Rc1 Rb1 Fc1 Fb1 R G)
           as (N1 & sig & E1 & s1 & Hc & Hs & R1 & X1 & Hlen1).
         exists N1, sig, E1, s1. simpl. rewrite (run_ok _ _ _ _ _ Hc). auto.
@@ -727,10 +993,10 @@ Section Main.
   Proof.
     intros IC IW st x lenv E s lenv' br H Rs Fs R G.
     inversion Rs as [n t e xe Rx|n t e xe Rx| | |c b elifs els xc xb xelifs xels Rc Rb Rl Ro|c b xc xb Rc Rb];
-      subst; cbn [CS.lx_s] in H; simpl in Fs.
+      subst; cbn [CompileSem.lx_s] in H; simpl in Fs.
     - (* x := e *)
       apply andb_true_iff in Fs as [Fn Fe].
-      destruct (C.eval_expr (fun x0 => CS.slook x0 lenv) e) as [v|] eqn:Ev; [|discriminate]. inversion H; subst.
+      destruct (Compile.eval_expr (fun x0 => CompileSem.slook x0 lenv) e) as [v|] eqn:Ev; [|discriminate]. inversion H; subst.
       destruct (value_copy_tie e xe lenv E s v Rx Fe Ev R G) as (N & c & s2 & Hv & Hh & X2).
       destruct (decl_tie lenv E s2 n v c (envrel_sext _ _ _ _ X2 R) Fn Hh) as (E' & s3 & Hd & R3 & Hheap & Hlen & Hrest).
       exists (S N), SigNone, E', s3. split.
@@ -743,8 +1009,8 @@ Section Main.
         apply gext_same_heap; [eapply sext_good; eauto | exact Hheap | apply (Hrest s3 eq_refl)].
     - (* x = e *)
       apply andb_true_iff in Fs as [Fn Fe].
-      destruct (C.eval_expr (fun x0 => CS.slook x0 lenv) e) as [v|] eqn:Ev; [|discriminate].
-      destruct (CS.sassign n v lenv) as [lenv1|] eqn:Ha; [|discriminate]. inversion H; subst.
+      destruct (Compile.eval_expr (fun x0 => CompileSem.slook x0 lenv) e) as [v|] eqn:Ev; [|discriminate].
+      destruct (CompileSem.sassign n v lenv) as [lenv1|] eqn:Ha; [|discriminate]. inversion H; subst.
       destruct (value_copy_tie e xe lenv E s v Rx Fe Ev R G) as (N & c & s2 & Hv & Hh & X2).
       destruct (assign_tie lenv E s2 n v c lenv' (envrel_sext _ _ _ _ X2 R) Fn Hh Ha)
         as (E' & s3 & Hd & R3 & Hheap & Hlen & Hrest).
@@ -768,7 +1034,7 @@ Section Main.
       split; [apply sext_gext, sext_tickst; auto | reflexivity].
     - (* if *)
       apply andb_true_iff in Fs as [Fs Fo]. apply andb_true_iff in Fs as [Fs Fl]. apply andb_true_iff in Fs as [Fc Fb].
-      destruct (IC (C.CCons c b elifs) els ((xc, xb) :: xelifs) xels lenv E (tickst s) lenv' br H
+      destruct (IC (Compile.CCons c b elifs) els ((xc, xb) :: xelifs) xels lenv E (tickst s) lenv' br H
                    (c_cons _ _ _ _ _ _ Rc Rb Rl) Ro)
         as (N & sig & E' & s' & Hi & Hs & R' & X & Hlen).
       { simpl. rewrite Fc, Fb, Fl. reflexivity. }
@@ -791,7 +1057,7 @@ Section Main.
 
   Lemma list_step f : stmt_tie f -> list_tie P f -> list_tie P (S f).
   Proof.
-    intros IS IL l xl lenv E s lenv' br H Rl Fl R G. cbn [CS.lx_l] in H.
+    intros IS IL l xl lenv E s lenv' br H Rl Fl R G. cbn [CompileSem.lx_l] in H.
     inversion Rl as [|st t x xt Rs Rt]; subst.
     - inversion H; subst. exists 1%nat, SigNone, E, s. split; [reflexivity|].
       split; [exact I|]. split; [exact R|]. split; [apply gext_refl; auto | reflexivity].
@@ -821,7 +1087,7 @@ End Main.
 (* ====================================================================== *)
 (* 6. Whole programs                                                       *)
 (* ====================================================================== *)
-(* reading a cell back as a plain value *)
+(* reading a basic cell back as a plain value; arrays are read back by the relation [holds] *)
 Definition reify (h : heap) (l : loc) : option Vm.value :=
   match hget h l with
   | Some (HNum f) => Some (Vm.VNum f)
@@ -829,28 +1095,31 @@ Definition reify (h : heap) (l : loc) : option Vm.value :=
   | Some (HStr x) => if is_ascii x then Some (Vm.VStr (Vm.utf8_encode x)) else None
   | _ => None
   end.
-Lemma holds_reify h l v : holds h l v <-> reify h l = Some v.
+Lemma reify_holds h l v : reify h l = Some v -> holds h l v.
 Proof.
-  unfold reify. split.
-  - intro H. destruct H; rewrite H; auto. rewrite H0, (utf8_ascii _ H0). reflexivity.
-  - destruct (hget h l) as [[f|x|b| | | |]|] eqn:G; try discriminate.
-    + intro Q; inversion Q; apply h_num; auto.
-    + destruct (is_ascii x) eqn:A; [|discriminate]. rewrite (utf8_ascii _ A).
-      intro Q; inversion Q; apply h_str; auto.
-    + intro Q; inversion Q; apply h_bool; auto.
+  unfold reify. destruct (hget h l) as [[f|x|b| | | |]|] eqn:G; try discriminate.
+  - intro Q; inversion Q; apply h_num; auto.
+  - destruct (is_ascii x) eqn:A; [|discriminate]. rewrite (utf8_ascii _ A).
+    intro Q; inversion Q; apply h_str; auto.
+  - intro Q; inversion Q; apply h_bool; auto.
+Qed.
+Lemma holds_reify h l v : scalar v -> holds h l v -> reify h l = Some v.
+Proof.
+  unfold reify. intros S H. destruct H; try contradiction; rewrite H; auto.
+  rewrite H0, (utf8_ascii _ H0). reflexivity.
 Qed.
 
-(* the value of a global of the Sem state, read back *)
-Definition sem_global (s : state) (n : str) : option Vm.value :=
-  match frame_get n (st_globals s) with Some l => reify (st_heap s) l | None => None end.
+(* the global n of the Sem state reads back as v *)
+Definition sem_global (s : state) (n : str) (v : Vm.value) : Prop :=
+  exists l, frame_get n (st_globals s) = Some l /\ holds (st_heap s) l v.
 
-Theorem tie_program (P : program) (p : C.slist) fuel env' s0 :
-  CS.lx_l fuel p [[]] = Some (env', false) ->
+Theorem tie_program (P : program) (p : Compile.slist) fuel env' s0 :
+  CompileSem.lx_l fuel p [[]] = Some (env', false) ->
   lrel p (p_stmts P) -> tfrag_l p = true ->
   good s0 -> st_total s0 = 0%nat -> st_fails s0 = 0%nat ->
   exists N s1, (forall n, (N <= n)%nat -> run_program n P s0 = (ODone, s1)) /\
                st_trace s1 = st_trace s0 /\
-               forall n v, CS.slook n env' = Some v -> sem_global s1 n = Some v.
+               forall n v, CompileSem.slook n env' = Some v -> sem_global s1 n v.
 Proof.
   intros H Rl Fl G T0 F0.
   destruct (tie_all P fuel) as (_ & IL & _ & _).
@@ -867,8 +1136,8 @@ Proof.
   - destruct X as (_ & _ & Xt & _). exact Xt.
   - intros n v A. destruct R1 as (lfs & gf & Eq & F & FG).
     inversion F; subst. simpl in A.
-    destruct (CS.alook n gf) as [w|] eqn:Q; [|discriminate]. inversion A; subst w.
-    destruct (FG n v Q) as (l & Gl & Hl). unfold sem_global. rewrite Gl. apply holds_reify. exact Hl.
+    destruct (CompileSem.alook n gf) as [w|] eqn:Q; [|discriminate]. inversion A; subst w.
+    destruct (FG n v Q) as (l & Gl & Hl). exists l. auto.
 Qed.
 
 Lemma good_init input ff ay : good (init_state None input ff ay).
@@ -877,45 +1146,55 @@ Proof. split; [apply SemStore.wf_init | split; reflexivity]. Qed.
 (* ====================================================================== *)
 (* 7. The translation (with every type annotation TNone: Sem.v does not look at them here) *)
 (* ====================================================================== *)
-Fixpoint tr_e (e : C.expr) : expr :=
+Fixpoint tr_e (e : Compile.expr) : expr :=
   match e with
-  | C.ENum f => ENum f
-  | C.EBool b => EBool b
-  | C.EStr s => EStr s
-  | C.EVar n => EVar n TNone
-  | C.EGroup e1 => EGroup (tr_e e1)
-  | C.EUn C.UMinus e1 => EUn UMinus (tr_e e1)
-  | C.EUn _ e1 => EUn UBang (tr_e e1)
-  | C.EBin op _ _ l r => EBin (match trop op with Some o => o | None => BPlus end) TNone (tr_e l) (tr_e r)
+  | Compile.ENum f => ENum f
+  | Compile.EBool b => EBool b
+  | Compile.EStr s => EStr s
+  | Compile.EVar n => EVar n TNone
+  | Compile.EGroup e1 => EGroup (tr_e e1)
+  | Compile.EUn Compile.UMinus e1 => EUn UMinus (tr_e e1)
+  | Compile.EUn _ e1 => EUn UBang (tr_e e1)
+  | Compile.EBin op _ _ l r => EBin (match trop op with Some o => o | None => BPlus end) TNone (tr_e l) (tr_e r)
+  | Compile.EArr l => EArr TNone (tr_el l)
+  | Compile.EIndex l i => EIndex TNone (tr_e l) (tr_e i)
   | _ => ENum 0%float
-  end.
+  end
+with tr_el (l : Compile.elist) : list expr :=
+  match l with Compile.ENil => [] | Compile.ECons e t => tr_e e :: tr_el t end.
 
-Fixpoint tr_s (s : C.stmt) : stmt :=
+Fixpoint tr_s (s : Compile.stmt) : stmt :=
   match s with
-  | C.SDecl n e => SDecl n TNone (tr_e e)
-  | C.SAssign (C.EVar n) e => SAssign (EVar n TNone) (tr_e e)
-  | C.SBreak => SBreak
-  | C.SIf c b elifs els =>
-      SIf ((tr_e c, tr_l b) :: tr_c elifs) (match els with C.NoElse => None | C.Else eb => Some (tr_l eb) end)
-  | C.SWhile c b => SWhile (tr_e c) (tr_l b)
+  | Compile.SDecl n e => SDecl n TNone (tr_e e)
+  | Compile.SAssign (Compile.EVar n) e => SAssign (EVar n TNone) (tr_e e)
+  | Compile.SBreak => SBreak
+  | Compile.SIf c b elifs els =>
+      SIf ((tr_e c, tr_l b) :: tr_c elifs) (match els with Compile.NoElse => None | Compile.Else eb => Some (tr_l eb) end)
+  | Compile.SWhile c b => SWhile (tr_e c) (tr_l b)
   | _ => SNop
   end
-with tr_l (l : C.slist) : list stmt :=
-  match l with C.SNil => [] | C.SCons s t => tr_s s :: tr_l t end
-with tr_c (l : C.clist) : list (expr * list stmt) :=
-  match l with C.CNil => [] | C.CCons c b t => (tr_e c, tr_l b) :: tr_c t end.
+with tr_l (l : Compile.slist) : list stmt :=
+  match l with Compile.SNil => [] | Compile.SCons s t => tr_s s :: tr_l t end
+with tr_c (l : Compile.clist) : list (expr * list stmt) :=
+  match l with Compile.CNil => [] | Compile.CCons c b t => (tr_e c, tr_l b) :: tr_c t end.
 
 Lemma tr_e_rel : forall e, tfrag_e e = true -> xrel e (tr_e e).
 Proof.
-  fix IH 1. intros e F. destruct e; simpl in F; try discriminate.
-  - constructor.
-  - constructor.
-  - constructor.
-  - constructor.
-  - destruct op; try discriminate; simpl; constructor; apply IH; exact F.
-  - simpl. destruct (trop op) as [o|] eqn:T; [|discriminate]. apply andb_true_iff in F as [F1 F2].
-    apply x_bin; [exact T | apply IH; exact F1 | apply IH; exact F2].
-  - simpl. constructor. apply IH; exact F.
+  fix IH 1 with (IHl (l : Compile.elist) : tfrag_el l = true -> xlrel l (tr_el l)).
+  - intros e F. destruct e; simpl in F; try discriminate.
+    + constructor.
+    + constructor.
+    + constructor.
+    + constructor.
+    + simpl. constructor. apply IHl; exact F.
+    + destruct op; try discriminate; simpl; constructor; apply IH; exact F.
+    + simpl. destruct (trop op) as [o|] eqn:T; [|discriminate]. apply andb_true_iff in F as [F F3].
+      apply andb_true_iff in F as [F1 F2].
+      apply x_bin; [exact T | apply IH; exact F1 | apply IH; exact F2].
+    + simpl. apply andb_true_iff in F as [F1 F2]. constructor; apply IH; assumption.
+    + simpl. constructor. apply IH; exact F.
+  - intros l F. destruct l; simpl in F |- *; [constructor|].
+    apply andb_true_iff in F as [F1 F2]. constructor; [apply IH; exact F1 | apply IHl; exact F2].
 Qed.
 
 Lemma tr_rel :
@@ -924,8 +1203,8 @@ Lemma tr_rel :
   (forall l, tfrag_c l = true -> crel l (tr_c l)).
 Proof.
   assert (HS : forall s, tfrag_s s = true -> srel s (tr_s s))
-    by (fix IHs 1 with (IHl (l : C.slist) : tfrag_l l = true -> lrel l (tr_l l))
-                       (IHc (l : C.clist) : tfrag_c l = true -> crel l (tr_c l));
+    by (fix IHs 1 with (IHl (l : Compile.slist) : tfrag_l l = true -> lrel l (tr_l l))
+                       (IHc (l : Compile.clist) : tfrag_c l = true -> crel l (tr_c l));
         [ intros s F; destruct s; simpl in F; try discriminate; simpl
         | intros l F; destruct l; simpl in F |- *; [constructor | apply andb_true_iff in F as [F1 F2]; constructor; auto]
         | intros l F; destruct l; simpl in F |- *;
@@ -962,17 +1241,15 @@ Qed.
              end
              x = 5          // lx_l: assigns the stale loop variable; Sem.v: the global x
          end
-   - arrays and maps (literals, a[i], a[i:j], + and * on arrays).  The relation extends
-     (holds on HArr cells element-wise; copyOrRef shares the cell, which is harmless without
-     element stores; Vm.normalize_index and Sem.normalize_index agree, checked), but == on
-     arrays does not: Sem.equals walks at most value_depth = 4000 levels and then crashes
-     (Go: stack overflow), lx_l's val_equals has no bound, and `a = [a]` in a loop builds
-     values of any depth — so the statement needs a depth bound or must exclude == on arrays
-     by a dynamic condition.
+   - == on two composites, array repetition, maps, slices.  Sem.equals and Sem.deep_copy walk at
+     most value_depth = 4000 levels and then crash (Go: stack overflow); lx_l's val_equals and
+     arr_repeat have no bound, and `a = [a]` in a loop builds values of any depth — so == is in the
+     fragment only when one operand is manifestly scalar, and * on arrays is out.  Maps and slices
+     are not done (the relation would extend as for arrays; Vm.normalize_index and
+     Sem.normalize_index agree: norm_idx_eq).
    - strings beyond ASCII.  Vm.value strings are UTF-8 bytes, Sem.v strings are code points:
      the tie needs utf8_decode (utf8_encode s) = s and that byte-wise comparison of encodings
      is code-point comparison, for valid code points; no such lemma exists yet.  (ASCII:
      utf8_ascii above.)
-   - % : Vm.float_mod and Num.fmod are two definitions of math.Mod whose equality is not proved.
    - the converse (lx_l undefined => Sem.v panics) is not an equivalence: x / 0 is undefined in
      lx_l (the VM raises "division by zero") and +Inf in Sem.v (the evaluator divides). *)
